@@ -10,6 +10,7 @@
    _getarglimb, the order of the loop tests of _build_concat). *)
 From PyRTL Require Import Sim.FastModel Sim.FastModelProofs Sim.SimCorrect.
 From PyRTL Require Import Sim.CLimb Sim.CLimbProofs Sim.CLimbMul Sim.CLimbConcat.
+From PyRTL Require Import Sim.CEmitModel Sim.CEmitProofs.
 From PyRTL Require Import Netlist.Sem.
 
 (* ======================= translated fragments ======================================= *)
@@ -188,6 +189,33 @@ Theorem C02_input_packing_ok : forall w v, 0 <= w -> 0 <= v < 2 ^ w ->
 Proof. exact c_pack_ok. Qed.
 Print Assumptions C02_input_packing_ok.
 
+(* ======================= CompiledSimulation: the whole emitted program ==================== *)
+
+(* One call of sim_run_step (Sim/CEmitModel.v: inputs copied in, builders in block order, enabled
+   inserts, registers through regtmp): every declared wire is a well-formed limb array holding
+   exactly the reference value; the successor states (static register arrays, hash maps) stay
+   related.  c_wfb = the width rules of Block.sanity_check_net the C text relies on + "a memory
+   key fits one limb" (CompiledSimulation rejects wider address buses). *)
+Theorem C02_c_step_refines_spec : forall nl dflt st cs ins,
+  wfb nl = true -> c_wfb nl = true -> RC nl st cs -> legal_ins nl ins ->
+  let '(v, st') := step nl dflt st ins in
+  let '(cv, cs') := c_step nl cs ins in
+  cwires_agree nl v cv /\ RC nl st' cs'.
+Proof. exact c_step_refines_wf. Qed.
+Print Assumptions C02_c_step_refines_spec.
+
+(* Every cycle of every legal input sequence from every legal initial state, default_value 0
+   (a non-zero default is not applied to memories by CompiledSimulation: the sanctioned
+   difference, outside this statement). *)
+Theorem C02_c_refines_spec : forall nl regmap memmap inss,
+  wfb nl = true -> c_wfb nl = true ->
+  legal_init nl 0 regmap -> legal_cmems nl memmap -> Forall (legal_ins nl) inss ->
+  Forall2 (cwires_agree nl)
+    (fst (run nl 0 (init_state nl 0 regmap memmap) inss))
+    (fst (c_run nl (c_init nl 0 regmap memmap) inss)).
+Proof. exact c_refines_spec. Qed.
+Print Assumptions C02_c_refines_spec.
+
 (* ======================= non-vacuity =================================================== *)
 
 (* a design with a register, a memory, a truncating subtract, a 70-bit add, a concat and a
@@ -202,8 +230,8 @@ Definition ex_nl : netlist :=
                mkNet (OpMemWr 0) [3; 9; 7] 0; mkNet OpReg [4] 2 ];
      mems := [ mkMem 0 3 3 None ] |}.
 
-Example C02_example_wf : wfb ex_nl = true /\ fast_wfb ex_nl = true.
-Proof. vm_compute. split; reflexivity. Qed.
+Example C02_example_wf : wfb ex_nl = true /\ fast_wfb ex_nl = true /\ c_wfb ex_nl = true.
+Proof. vm_compute. repeat split; reflexivity. Qed.
 
 Definition ex_ins : list (wid -> Z) :=
   [ (fun _ => 2 ^ 69 + 3); (fun _ => 7); (fun _ => 2 ^ 70 - 1) ].
@@ -213,8 +241,10 @@ Definition ex_probe (vs : list (wid -> Z)) : list (list Z) :=
 
 Example C02_example_trace :
   ex_probe (fst (fast_run ex_nl 0 (fast_init ex_nl 0 [] []) ex_ins))
-  = ex_probe (fst (run ex_nl 0 (init_state ex_nl 0 [] []) ex_ins)).
-Proof. vm_compute. reflexivity. Qed.
+  = ex_probe (fst (run ex_nl 0 (init_state ex_nl 0 [] []) ex_ins))
+  /\ ex_probe (map (fun cv w => limbs_to_Z (cv w)) (fst (c_run ex_nl (c_init ex_nl 0 [] []) ex_ins)))
+     = ex_probe (fst (run ex_nl 0 (init_state ex_nl 0 [] []) ex_ins)).
+Proof. vm_compute. split; reflexivity. Qed.
 
 (* limb arrays: 130-bit operands, 3 limbs each *)
 Example C02_example_limbs :
